@@ -581,14 +581,20 @@ func blocksDef(repo string) string {
 func main() {
 	repo := flag.String("repo", "/repo", "repository root")
 	out := flag.String("out", "", "output file (stdout when empty)")
+	group := flag.String("group", "", "which Lean package the definitions are for: \"\" (lean/core) or neigh")
 	flag.Parse()
 	var sb strings.Builder
-	sb.WriteString("-- generated by harness/cmd/ruextract-arith from validatornode/application/verification/blockchain.go; do not edit\n")
+	sb.WriteString("-- generated by harness/cmd/ruextract-arith from the Go source; do not edit\n")
 	sb.WriteString("namespace Gen\n\n")
-	sb.WriteString(section("blocks", func() string { return blocksDef(*repo) }))
-	sb.WriteString(section("fee", func() string { return feeDefs(*repo) }))
+	if *group == "" {
+		sb.WriteString(section("blocks", func() string { return blocksDef(*repo) }))
+		sb.WriteString(section("fee", func() string { return feeDefs(*repo) }))
+	}
 	for i := range guardSpecs {
 		sp := &guardSpecs[i]
+		if sp.group != *group {
+			continue
+		}
 		sb.WriteString(section("guards:"+sp.fn, func() string { return guardDef(*repo, sp) }))
 	}
 	sb.WriteString("end Gen\n")
